@@ -316,6 +316,20 @@ def oracle_bsolve(c, out):
         if i >= len(got) or got[i] != want:
             return (f"absolute tolerance of species s{i} is {got[i] if i < len(got) else None!r}, declared {('%r' % a) if a >= 0 else 'none (default 1e-3)'} "
                     f"(reorder={m['reorder']}, listing order {m['perm']}, state column {col[i]})")
+    # reaction stoichiometry refers to the named species: the forcing of the BUILT solver at the initial state, read per
+    # species name, is the mass-action law of the mechanism as declared (exact rationals, rounding envelope)
+    f0 = d.get("f0")
+    vals = list(m["k"]) + list(m["y"])
+    if f0 is not None and all(v == v and abs(v) != float("inf") for v in vals):
+        ns, ncell = m["ns"], m["ncell"]
+        exp, env = O.mass_action(m["rx"], list(range(ns)), m["k"], m["y"], [0.0] * (ns * ncell), ncell, ns)
+        for i, (g, e, b) in enumerate(zip(f0, exp, env)):
+            gv = O.fr(g)
+            if gv is None:
+                continue
+            if abs(gv - e) > b:
+                return (f"forcing of the built solver for species s{i % ns} in cell {i // ns} is {float(gv)!r}; the mass-action law of the declared mechanism "
+                        f"gives {float(e)!r} (envelope {float(b):.3e}; reorder={m['reorder']}, listing order {m['perm']})")
     return None
 
 def gen_bsolve_groups(r, env, Ls, n, tag):
